@@ -42,6 +42,26 @@ func main() {
 		}
 	}
 
+	// time budget: an analysis that does not finish is undecided, not silent
+	// (quick 15 min, thorough 90 min per property; PSACHECK_BUDGET=seconds overrides)
+	if *prop != "" {
+		budget := 15 * time.Minute
+		if *tier == "thorough" || os.Getenv("VERIF_TIER") == "thorough" {
+			budget = 90 * time.Minute
+		}
+		if b := os.Getenv("PSACHECK_BUDGET"); b != "" {
+			if n, err := strconv.Atoi(b); err == nil && n > 0 {
+				budget = time.Duration(n) * time.Second
+			}
+		}
+		id := *prop
+		time.AfterFunc(budget, func() {
+			fmt.Printf("UNDECIDED -: budget/%s [%s] the analysis did not finish within %s (path explosion on an unrecognised shape?)\n", id, id, budget)
+			fmt.Printf("VIOLATION property=%s replay=%s\n", id, "time-budget-exceeded")
+			os.Exit(1)
+		})
+	}
+
 	if *list {
 		var ids []string
 		for k := range props {
